@@ -1024,4 +1024,187 @@ def owRunOps : OWObj → List OWOp → Except PyErr OWObj
     | .error e => .error e
     | .ok (s', _) => owRunOps s' rest
 
+/-! ## LighthouseMemHelper: the `_ObjectWriter` / `_ObjectReader` objects working through the queue of base stations
+
+State = the attributes of one writer (or reader) and of the `LighthouseMemory` it drives, plus the caller's dict object;
+operations = `write(dict)` / `read_all()` and the per-object replies of the memory handler (done or failed).
+Whether the writer works on a COPY of the caller's dict is read from the source (`Gen.lhWriterQueueSrc`). -/
+
+inductive LhKind
+  | geo
+  | calib
+  deriving Repr, DecidableEq
+
+def LhKind.writeAddr : LhKind → Nat → Nat
+  | .geo, bs => Gen.C14.lhGeoWriteAddr bs
+  | .calib, bs => Gen.C14.lhCalibWriteAddr bs
+def LhKind.readAddr : LhKind → Nat → Nat
+  | .geo, bs => Gen.C14.lhGeoReadAddr bs
+  | .calib, bs => Gen.C14.lhCalibReadAddr bs
+def LhKind.readLen : LhKind → Nat
+  | .geo => Gen.C14.lhSizeGeometry
+  | .calib => Gen.C14.lhSizeCalibration
+
+/-- `obj.add_mem_data(data)` of whatever object sits in the dict -/
+def objImage : LhObj → Except PyErr (List UInt8)
+  | .geo g => geoImage g
+  | .calib c => calibImage c
+
+/-- `self._objects_to_write = dict(object_dict)`: a copy, unless the source says otherwise (then the queue IS the caller's dict) -/
+def lhWriterAliases : Bool := Gen.C14.lhWriterQueueSrc != "dict(object_dict)"
+
+/-- one `_ObjectWriter`, the `LighthouseMemory` behind it and the caller's dict object -/
+structure LhW where
+  queue : Option (Dict LhObj)      -- `_objects_to_write`
+  failed : Bool                    -- `_write_failed_for_one_or_more_objects`
+  lhBusy : Bool                    -- `LighthouseMemory._write_finished_cb` is set
+  caller : Dict LhObj              -- the dict the caller handed to the last `write`
+  deriving Repr, DecidableEq
+
+def LhW.fresh : LhW := ⟨none, false, false, []⟩
+
+inductive LhWOut
+  | write (addr : Nat) (data : List UInt8)
+  | done (success : Bool)
+  deriving Repr, DecidableEq
+
+inductive LhWOp
+  | write (d : Dict LhObj)
+  | writeDone
+  | writeFailed
+  deriving Repr, DecidableEq
+
+/-- `_write_next_object` -/
+def lhwNext (k : LhKind) (s : LhW) : Except PyErr (LhW × LhWOut) :=
+  match s.queue with
+  | none => .error .typeError                      -- len(None)
+  | some [] => .ok ({ s with queue := none, failed := false }, .done (!s.failed))
+  | some ((bs, o) :: rest) =>
+    -- id = first key; data = pop(id); write_fcn(id, data, ...)
+    let s1 := { s with queue := some rest, caller := if lhWriterAliases then rest else s.caller }
+    if s1.lhBusy then .error .other                -- 'Write operation already ongoing.'
+    else
+      match objImage o with
+      | .error e => .error e
+      | .ok img => .ok ({ s1 with lhBusy := true }, .write (k.writeAddr bs) img)
+
+def lhwStep (k : LhKind) (s : LhW) : LhWOp → Except PyErr (LhW × Option LhWOut)
+  | .write d =>
+    if s.queue.isSome then .error .other           -- 'Write operation not finished'
+    else (lhwNext k { s with queue := some d, failed := false, caller := d }).map fun (s', o) => (s', some o)
+  | .writeDone =>                                  -- LighthouseMemory.write_done -> _data_written
+    if s.lhBusy then (lhwNext k { s with lhBusy := false }).map fun (s', o) => (s', some o) else .ok (s, none)
+  | .writeFailed =>                                -- LighthouseMemory.write_failed -> _write_failed
+    if s.lhBusy then (lhwNext k { s with lhBusy := false, failed := true }).map fun (s', o) => (s', some o) else .ok (s, none)
+
+/-- the memory handler serves the write requests one by one: `acks` says for each whether the device accepts it
+(then the bytes are stored and `write_done` is called) or refuses it (`write_failed`); missing entries = accepted -/
+def lhwServe (k : LhKind) : Nat → LhW → LhWOut → Mem → List Bool → Except PyErr (LhW × Mem × Option Bool)
+  | _, s, .done b, m, _ => .ok (s, m, some b)
+  | 0, s, .write _ _, m, _ => .ok (s, m, none)
+  | fuel + 1, s, .write a d, m, acks =>
+    let ack := acks.headD true
+    match lhwStep k s (if ack then .writeDone else .writeFailed) with
+    | .error e => .error e
+    | .ok (s', some o) => lhwServe k fuel s' o (if ack then m.write a d else m) acks.tail
+    | .ok (s', none) => .ok (s', if ack then m.write a d else m, none)
+
+/-- `write_geos(d, cb)` / `write_calibs(d, cb)` run to completion: the helper afterwards, the memory, the reported success -/
+def lhRunWrite (k : LhKind) (s : LhW) (d : Dict LhObj) (m : Mem) (acks : List Bool) : Except PyErr (LhW × Mem × Option Bool) :=
+  match lhwStep k s (.write d) with
+  | .error e => .error e
+  | .ok (s', some o) => lhwServe k (d.length + 1) s' o m acks
+  | .ok (s', none) => .ok (s', m, none)
+
+/-- what the upload has to leave in the memory, object after object: the layout of `d` (refused objects are not stored);
+the flag is the reported success -/
+def lhWriteSpec (k : LhKind) : Mem → Dict LhObj → List Bool → Bool → Except PyErr (Mem × Bool)
+  | m, [], _, f => .ok (m, !f)
+  | m, (bs, o) :: rest, acks, f =>
+    match objImage o with
+    | .error e => .error e
+    | .ok img =>
+      let ack := acks.headD true
+      lhWriteSpec k (if ack then m.write (k.writeAddr bs) img else m) rest acks.tail (f || !ack)
+
+/-- one `_ObjectReader` and the `LighthouseMemory` behind it -/
+structure LhR where
+  next : Option Nat                -- `_next_id` (none: no read_all in progress, `_read_done_cb` is None)
+  result : Dict LhObj              -- `_result`
+  lhBusy : Bool                    -- `LighthouseMemory._update_finished_cb` is set
+  deriving Repr, DecidableEq
+
+def LhR.fresh : LhR := ⟨none, [], false⟩
+
+inductive LhROut
+  | read (addr n : Nat)
+  | done (result : Dict LhObj)
+  deriving Repr, DecidableEq
+
+inductive LhROp
+  | readAll
+  | newData (addr : Nat) (data : List UInt8)
+  | readFailed
+  deriving Repr, DecidableEq
+
+/-- `_get_object(channel)` -/
+def lhrGet (k : LhKind) (s : LhR) (ch : Nat) : Except PyErr (LhR × LhROut) :=
+  if ch < Gen.C14.lhReaderNrOfChannels then
+    if s.lhBusy then .error .other                  -- 'Read operation already ongoing'
+    else .ok ({ s with next := some ch, lhBusy := true }, .read (k.readAddr ch) k.readLen)
+  else .ok ({ s with next := none, result := [] }, .done s.result)
+
+def lhrStep (k : LhKind) (s : LhR) : LhROp → Except PyErr (LhR × Option LhROut)
+  | .readAll =>
+    if s.next.isSome then .error .other             -- 'Read operation not finished'
+    else (lhrGet k { s with result := [] } 0).map fun (s', o) => (s', some o)
+  | .newData addr data =>                           -- LighthouseMemory.new_data: callbacks cleared, data parsed, then _data_updated
+    match lhNewData addr data with
+    | .error e => .error e
+    | .ok obj =>
+      if s.lhBusy then
+        match s.next with
+        | none => .error .typeError
+        | some n => (lhrGet k { s with lhBusy := false, result := dictSet s.result n obj } (n + 1)).map fun (s', o) => (s', some o)
+      else .ok (s, none)
+  | .readFailed =>                                  -- new_data_failed -> _update_failed
+    if s.lhBusy then
+      match s.next with
+      | none => .error .typeError
+      | some n => (lhrGet k { s with lhBusy := false } (n + 1)).map fun (s', o) => (s', some o)
+    else .ok (s, none)
+
+/-- the reads are served from the memory `m`; the base stations in `fails` are refused by the device -/
+def lhrServe (k : LhKind) (m : Mem) (fails : List Nat) : Nat → LhR → LhROut → Except PyErr (LhR × Option (Dict LhObj))
+  | _, s, .done r => .ok (s, some r)
+  | 0, s, .read _ _ => .ok (s, none)
+  | fuel + 1, s, .read a n =>
+    let op := if fails.contains (s.next.getD 0) then LhROp.readFailed else .newData a (m.read a n)
+    match lhrStep k s op with
+    | .error e => .error e
+    | .ok (s', some o) => lhrServe k m fails fuel s' o
+    | .ok (s', none) => .ok (s', none)
+
+/-- `read_all_geos(cb)` / `read_all_calibs(cb)` run to completion -/
+def lhRunRead (k : LhKind) (s : LhR) (m : Mem) (fails : List Nat) : Except PyErr (LhR × Option (Dict LhObj)) :=
+  match lhrStep k s .readAll with
+  | .error e => .error e
+  | .ok (s', some o) => lhrServe k m fails (Gen.C14.lhReaderNrOfChannels + 1) s' o
+  | .ok (s', none) => .ok (s', none)
+
+/-- what `read_all` has to deliver: for each channel from `ch` on that the device serves, the parsed page -/
+def lhReadSpec (k : LhKind) (m : Mem) (fails : List Nat) : Nat → Nat → Dict LhObj → Except PyErr (Dict LhObj)
+  | _, 0, acc => .ok acc
+  | ch, n + 1, acc =>
+    if fails.contains ch then lhReadSpec k m fails (ch + 1) n acc
+    else
+      match lhNewData (k.readAddr ch) (m.read (k.readAddr ch) k.readLen) with
+      | .error e => .error e
+      | .ok obj => lhReadSpec k m fails (ch + 1) n (acc ++ [(ch, obj)])
+
+/-- `LighthouseConfigWriter._prepare_geos/_prepare_calibs`: a COPY of the caller's dict, padded with `empty` for every base
+station below `nr` that has no entry -/
+def lhPrepare (d : Dict LhObj) (empty : LhObj) (nr : Nat) : Dict LhObj :=
+  d ++ ((List.range nr).filter fun i => !(d.any (·.1 == i))).map fun i => (i, empty)
+
 end CfVerif.C14
